@@ -42,8 +42,29 @@ Families (CAM16, colour difference, blending: `FAMILIES` below) are emitted into
     `zip_input(..)` -> `Prim.zip4With` (the text of `zip_colors` / `zip_input` is pinned by digest: `pins` of the family); `x.f = e` on a local struct
     variable rebinds `x` with the other fields unchanged; `structs={..}` renames a Rust struct to a registered one for one body (`PreAlpha` at a `V3` colour)
   * `ptypes={name: type}`: parameters whose type is a bare type parameter bounded in the `where` clause (`F: FnMut(T, T) -> T`)
+
+Families for the macro-generated operator code (clamp / bounds C03, colour operators C10, hues C11, number formats C06: `clamp`, `ops`, `hue`, `stim`;
+Gen/BodiesClamp.lean, BodiesOps.lean, BodiesHue.lean, BodiesStim.lean; PaletteProofs/Tie_Clamp.lean, Tie_Ops.lean, Tie_Hue.lean, Tie_Stimulus.lean):
+  * `expand=(file, macro, first token)`: the body is read from the *expansion of an actual invocation* (tools/rust_macros.py: a `macro_rules!` engine that
+    matches the invocation against the arms as written now, nested repetitions and recursion included); `bodies=<function of read_src>`: the registrations
+    of a family are derived from the invocations found (every three-component colour type), a body without `tie_` theorem still stops the run;
+    `expr_macros=[..]`: helper macros in expression position (`_clamp_value!`) are expanded by the same engine from inside the expression parser
+  * `inout="self"`: a `&mut self` method is the function returning the final state of the receiver; `self.f = e`, `self.f += e`, `*self += e`, `self.0 = e`
+    rebind it (a colour: `V3.mk` with the other components unchanged), `crate::clamp_assign(&mut self.f, lo, hi);` / `clamp_min_assign` / `clamp_max_assign`
+    assign the clamped value, a call statement of a translated `&mut self` method (`self.lighten_assign(-f);`) rebinds the receiver to its result
+  * `crate::clamp` / `clamp_min` / `num::Clamp::clamp_max` (and the assigning forms) are per-type primitives with a per-family reading (`PROFILES`:
+    `Clamp.clampV/clampMinV/clampMaxV` for the order-only C03 model; `Scalar.clamp/max/min` otherwise); the lib.rs wrappers are pinned by digest
+  * `Option::from(E).map_or(D, |v| F)` is resolved at translation time (`E = None` -> D, else F[v := E]); `BoolMask::from_bool(b)` -> `b`; a `PhantomData`
+    field read (`standard: self.standard`) is dropped; `use ..;` inside a body is skipped; `Self::Output` of the arithmetic impls is `Self`
+  * `e as T` is an operator between unary and `*`; `<<` / `>>`; hex literals; `nth=k`: the k-th `fn <name>` of the item; `inst="[C α]"`: extra instance binders;
+    `consts_from=[file]`: constants of another module used qualified; `invocation_rx`: the registered instantiation must occur in the source
+  * the 8-bit hue: `u8` is `Nat`, `x as f32` / `x as u8` and `to_radians` / `to_degrees` / `T::from_f64(PI)` read through the profile (`Hue.AngleConsts`)
+  * `mono=(src, dst)` (family `stim`): typed monomorphic lowering `MonoLower` onto core `Float32` / `Float` / `UIntN` (`u128`: `Nat`) for the bit-level arms of
+    stimulus.rs; the readings of the language primitives are listed above `class MonoLower`
 """
-import re, hashlib
+import re, hashlib, os, sys
+sys.path.insert(0, os.path.dirname(os.path.abspath(__file__)))
+import rust_macros
 
 class Untranslatable(Exception):
     pass
@@ -54,7 +75,7 @@ def fail(msg):
 # ------------------------------------------------------------------------------------------------ tokens
 TOK = re.compile(r"""
   (?P<ws>\s+)
- |(?P<num>\d[\d_]*(?:\.\d[\d_]*)?(?:[eE][+-]?\d+)?(?:_?(?:f32|f64|usize|u8|u16|u32|i32))?)
+ |(?P<num>0x[0-9a-fA-F_]+(?:u8|u16|u32|u64|u128|usize)?|\d[\d_]*(?:\.\d[\d_]*)?(?:[eE][+-]?\d+)?(?:_?(?:f32|f64|usize|u8|u16|u32|u64|u128|i32))?)
  |(?P<id>[A-Za-z_][A-Za-z0-9_]*)
  |(?P<life>'[A-Za-z_][A-Za-z0-9_]*)
  |(?P<op>::|->|=>|==|!=|<=|>=|&&|\|\||\.\.=|\.\.|\+=|-=|\*=|/=|[-+*/%=<>!&|.,;:(){}\[\]\#?$@^])
@@ -85,6 +106,12 @@ BINOPS = {  # operator -> (left binding power, right binding power)
     "..": (10, 11),
 }
 UNARY_BP = 80
+CAST_BP = 75       # `e as T`: tighter than `*`, looser than the unary operators (`-x as T` = `(-x) as T`)
+SHIFT_BP = (55, 56)
+
+# expression-position macros other than `lazy_select!` / `strip_plus!` / `matches!`: set by the family being translated to
+# `lambda name, toks: token list of the expansion | None` (tools/rust_macros.py expands `_clamp_value!` from its `macro_rules!` text)
+EXPR_MACRO_HOOK = None
 
 class Parser:
     def __init__(self, toks):
@@ -183,6 +210,19 @@ class Parser:
         lhs = self.prefix(no_struct)
         while True:
             k, v = self.peek()
+            if k == "id" and v == "as":
+                if CAST_BP < bp: break
+                self.i += 1
+                ty = [self.next()[1]]
+                while self.at("::"):
+                    self.i += 1; ty.append(self.next()[1])
+                if self.at("<"): fail("`as` cast to a generic type is outside the translated subset")
+                lhs = ("cast", lhs, "::".join(ty)); continue
+            if k != "num" and v in ("<", ">") and self.peek(1)[0] != "num" and self.peek(1)[1] == v:      # `<<` / `>>` (`a < < b` is not an expression)
+                if SHIFT_BP[0] < bp: break
+                self.i += 2
+                rhs = self.expr(SHIFT_BP[1], no_struct)
+                lhs = ("binary", v + v, lhs, rhs); continue
             if k == "num" or v not in BINOPS: break
             l, r = BINOPS[v]
             if l < bp: break
@@ -291,6 +331,12 @@ class Parser:
                     while q.eat("|"): alts.append(q.match_pattern())
                     if q.peek()[0] != "eof": fail("matches!: trailing tokens")
                     return ("matches", e, alts)
+                if EXPR_MACRO_HOOK is not None:
+                    ex = EXPR_MACRO_HOOK(name, toks)
+                    if ex is not None:
+                        q = Parser(ex); e = q.expr()
+                        if q.peek()[0] != "eof": fail(f"{name}!: the expansion is not one expression")
+                        return e
                 fail(f"macro {name}! is outside the translated subset")
             last = p[1][-1]
             if self.at("{") and not no_struct and (last[:1].isupper() or last == "Self"):
@@ -404,8 +450,6 @@ class Parser:
                 else: break
             elif self.at("?"):
                 fail("`?` is outside the translated subset")
-            elif self.peek()[0] == "id" and self.peek()[1] == "as":
-                fail("`as` casts are outside the translated subset")
             else: break
         return e
 
@@ -424,6 +468,11 @@ class Parser:
                 self.expect(";")
                 stmts.append(("let", p, ty, init))
                 continue
+            if self.at("use") and self.peek()[0] == "id":       # `use crate::color_theory::Complementary;` inside a body: brings a trait into scope, no effect on the value
+                while not self.at(";"):
+                    if self.peek()[0] == "eof": fail("unterminated `use`")
+                    self.i += 1
+                self.i += 1; continue
             if self.at("#"):       # attribute on a statement
                 self.i += 1; self.balanced(); continue
             e = self.expr()
@@ -468,9 +517,9 @@ def match_brace(src, i):
             if depth == 0: return j + 1
     fail("unbalanced braces")
 
-def find_fn(src, where, fn):
-    """(parameter text, return type text, body text incl. braces) of `fn <fn>` inside the first item whose header matches the
-    regex `where` (None: whole file).  `src` has comments stripped."""
+def find_fn(src, where, fn, nth=0):
+    """(parameter text, return type text, body text incl. braces) of the `nth` `fn <fn>` (with a body) inside the first item whose header
+    matches the regex `where` (None: whole file).  `src` has comments stripped."""
     if where is not None:
         m = re.search(where, src)
         if not m: fail(f"item /{where}/ not found")
@@ -503,6 +552,8 @@ def find_fn(src, where, fn):
             elif scope[q] in "])": dep -= 1
             elif scope[q] == ";" and dep == 0: k = q; break
         if j < 0 or 0 <= k < j: continue            # a declaration without body (trait method)
+        if nth > 0:
+            nth -= 1; continue
         head = scope[i:j]
         rm = re.match(r"\s*->\s*(.*?)\s*(?:\bwhere\b.*)?$", head, re.S)
         ret = rm.group(1).strip() if rm else ""
@@ -533,10 +584,22 @@ def struct_fields(src, name):
         out.append((mm.group(1), mm.group(2)))
     return out
 
+def struct_phantoms(src, name):
+    """names of the `PhantomData` fields of `struct <name>`"""
+    m = re.search(r"\bstruct\s+" + name + r"\b[^{;(]*\{", src)
+    if not m: fail(f"struct {name} not found")
+    body = src[m.end() - 1:match_brace(src, m.end() - 1)][1:-1]
+    body = re.sub(r"#\[[^\]]*\]", "", body)
+    out = []
+    for part in split_top(body):
+        mm = re.match(r"\s*(?:pub(?:\([^)]*\))?\s+)?(\w+)\s*:\s*(.+?)\s*$", part, re.S)
+        if mm and mm.group(2).startswith("PhantomData"): out.append(mm.group(1))
+    return out
+
 # ------------------------------------------------------------------------------------------------ lowering
 class Val:
     """a lowered expression: Lean source text and the (coarse) type used for dispatch
-       types: 'T' scalar (also hues) | 'B' Bool | 'P' Prop | ('V3', name|None) | ('S', name) | ('tup', [..]) | 'M3' | ('fn', [..], ret)
+       types: 'T' scalar (also hues) | 'N' Nat (`u8` of the 8-bit hue) | 'B' Bool | 'P' Prop | ('V3', name|None) | ('S', name) | ('tup', [..]) | 'M3' | ('fn', [..], ret)
               | ('typeid', text) | 'unit'"""
     __slots__ = ("code", "ty")
     def __init__(self, code, ty): self.code, self.ty = code, ty
@@ -544,6 +607,7 @@ class Val:
 def lean_ty(ty):
     if ty == "T": return "α"
     if ty == "B": return "Bool"
+    if ty == "N": return "Nat"
     if ty == "P": return "Prop"
     if ty == "M3": return "M3 α"
     if ty == "unit": return "Unit"
@@ -696,6 +760,11 @@ ANGLE_PRIMS = {"Angle.degToRad", "Angle.radToDeg", "Angle.hypot", "Angle.pi"}
 IDENTITY_METHODS = {"clone", "with_white_point", "is_true", "into_inner", "into_raw_degrees", "reinterpret_as", "borrow", "to_owned"}
 CMP_METHODS = {"gt": ("<", True), "lt": ("<", False), "gt_eq": ("≤", True), "lt_eq": ("≤", False)}
 CMP_OPS = {">": ("<", True), "<": ("<", False), ">=": ("≤", True), "<=": ("≤", False)}
+# lib.rs `clamp`, `clamp_min`, `clamp_assign`, `clamp_min_assign` (thin wrappers, pinned by digest in the families that read them) and the
+# `num::Clamp` / `num::ClampAssign` trait methods they forward to: name -> number of arguments
+CLAMP_FNS = {"clamp": 3, "clamp_min": 2, "clamp_max": 2}
+CLAMP_ASSIGN_FNS = {"clamp_assign": "clamp", "clamp_min_assign": "clamp_min", "clamp_max_assign": "clamp_max"}
+CLAMP_PREFIXES = ([], ["crate"], ["crate", "num", "Clamp"], ["crate", "num", "ClampAssign"])
 
 class Ctx:
     """what a translation unit knows about the crate: struct layouts, registered callees, constants"""
@@ -707,6 +776,7 @@ class Ctx:
         self.methods = {}                 # (struct name, method) -> same kind of dict, receiver is the first parameter
         self._fields = {}
         self.macro_structs = {}           # colour struct defined by a macro invocation -> (file, macro, invocation regex with groups = its fields)
+        self.engine = None                # tools/rust_macros.py Engine of the family (bodies read from macro expansions)
 
     def resolve(self, name):
         return self.aliases.get(name, name)
@@ -724,6 +794,11 @@ class Ctx:
             self._fields[name] = [f for f, _ in struct_fields(self.read_src(self.type_files[name][0]), name)]
             if len(self._fields[name]) != 3: fail(f"struct {name}: {len(self._fields[name])} non-phantom fields, V3 expects 3")
         return self._fields[name]
+
+    def phantoms(self, name):
+        name = self.resolve(name)
+        if name in self.macro_structs or name not in self.type_files: return []
+        return struct_phantoms(self.read_src(self.type_files[name][0]), name)
 
     def new_params(self, name):
         """parameter names of `<name>::new`, checked to be exactly the struct's fields (mapped by name)"""
@@ -789,11 +864,13 @@ class Lower:
             if key == "core::f64::consts::PI" and self.prof.get("kPI"): return self.prof["kPI"]
             if key in self.subst: return f"({self.sci(self.subst[key])} : K)"
             if len(e[1]) == 1 and e[1][0] in self.consts: return f"({self.sci(self.consts[e[1][0]])} : K)"
+            if key in self.consts: return f"({self.sci(self.consts[key])} : K)"      # `ok_utils::MAX_..` (constants of another module: `consts_from`)
         fail(f"not a constant expression: {e!r}")
 
     def from_f64(self, e):
         if e[0] == "path" and "::".join(e[1]) in self.subst:
             e = ("num", self.subst["::".join(e[1])])
+        if e[0] == "path" and e[1] == ["core", "f64", "consts", "PI"] and self.prof.get("pi"): return Val(self.prof["pi"], "T")
         if e[0] == "path" and e[1] == ["core", "f64", "consts", "PI"] and not self.prof.get("kPI"):
             self.uses_angle = True
             return Val("Angle.pi", "T")
@@ -843,6 +920,7 @@ class Lower:
             return Val("(V3.mk " + " ".join(v.code for v in vs) + ")", ("V3", None))
         if k == "struct": return self.struct_lit(e, env)
         if k == "closure": return self.closure(e, env)
+        if k == "cast": return self.cast(e, env)
         if k == "return": fail("`return` in a position the translation cannot express (only `if c { ..; return x; }` statements are)")
         fail(f"expression kind {k!r} is outside the translated subset")
 
@@ -852,6 +930,7 @@ class Lower:
             n = segs[0]
             if n in env: return env[n]
             if n == "PhantomData": return Val("_", "phantom")
+            if n in ("true", "false"): return Val(n, "B")
             if n in self.consts: fail(f"module constant {n} used outside T::from_f64")
             if n in self.ctx.fns and "extra" in self.ctx.fns[n] and not self.ctx.fns[n]["extra"]:      # a translated fn passed as a value
                 d = self.ctx.fns[n]
@@ -863,6 +942,13 @@ class Lower:
         if segs[0] == "MinMax" and len(segs) == 2 and segs[1] in ("min", "max"):
             return Val(PRIM2[segs[1]], ("fn", ["T", "T"], "T"))
         fail(f"path {'::'.join(segs)} used as a value")
+
+    def cast(self, e, env):
+        """`e as ty`: only the two casts of the 8-bit hue (`u8 as f32/f64`, `f32/f64 as u8`), read through the profile of the family"""
+        v = self.expr(e[1], env)
+        if v.ty == "N" and e[2] in self.scalar_names and self.prof.get("cast_u8_T"): return Val(self.prof["cast_u8_T"].format(v.code), "T")
+        if v.ty == "T" and e[2] == "u8" and self.prof.get("cast_T_u8"): return Val(self.prof["cast_T_u8"].format(v.code), "N")
+        fail(f"`as {e[2]}` on {v.ty!r} is outside the translated subset")
 
     def unary(self, e, env):
         op = e[1]
@@ -913,7 +999,9 @@ class Lower:
         if r.ty != "T" and r.ty[0] == "V3":
             if r.ty[1] is None: fail("field of an anonymous [T; 3]")
             fs = self.ctx.fields(r.ty[1])
-            if f not in fs: fail(f"{r.ty[1]} has no field {f}")
+            if f not in fs:
+                if f in self.ctx.phantoms(r.ty[1]): return Val("_", "phantom")      # `standard: self.standard` (a `PhantomData` field)
+                fail(f"{r.ty[1]} has no field {f}")
             return Val(f"{r.code}.c{fs.index(f)}", "T")
         if r.ty != "T" and r.ty[0] == "S":
             if f == "inner" and r.ty[1] == "DependentParameters": return r      # `BakedParameters.inner`
@@ -1007,6 +1095,12 @@ class Lower:
             return Val(self.scalar(self.expr(xs[0], env), " in from_scalar"), "T")
         if key == "clamp" and len(xs) == 3 and "clamp" not in self.ctx.fns:                  # crate-level `clamp(v, lo, hi)` = `v.clamp(lo, hi)`
             return self.prim("clamp", self.args(xs, env))
+        if segs[-1] in CLAMP_FNS and segs[:-1] in CLAMP_PREFIXES and len(xs) == CLAMP_FNS[segs[-1]] and key not in self.ctx.fns:
+            return self.clamp_prim(segs[-1], self.args(xs, env))                               # `crate::clamp_min(v, lo)`, `crate::num::Clamp::clamp_max(v, hi)`
+        if len(segs) >= 2 and segs[-2:] == ["BoolMask", "from_bool"] and len(xs) == 1 and xs[0] in (("path", ["true"], []), ("path", ["false"], [])):
+            return Val(xs[0][1][0], "B")                                                       # `BoolMask for bool`: the identity
+        if sprefix in self.scalar_names and ("T::" + segs[-1]) in self.ctx.fns:                # `T::Scalar::half_rotation()`, `f32::full_rotation()`
+            return self.apply_fn(self.ctx.fns["T::" + segs[-1]], self.args(xs, env), "T::" + segs[-1])
         if key == "TypeId::of" and not xs:
             return Val("_", ("typeid", re.sub(r"\s+", "", gens[-1]) if gens else "?"))
         if key == "Wp::get_xyz" and not xs:
@@ -1016,7 +1110,7 @@ class Lower:
         # UFCS forms of the scalar primitives: `T::max(a, b)`, `Round::floor(x)`, `T::cbrt(x)`
         if len(segs) == 2 and (segs[0] in ("T", "Round", "Self", "Exp", "Sqrt", "MinMax") or segs[0] in self.scalar_names) \
                 and (segs[1] in PRIM1 or segs[1] in PRIM2 or segs[1] in PRIM3 or segs[1] in self.prof) \
-                and not (segs[0] == "Self" and key in self.ctx.fns):
+                and not (segs[0] == "Self" and key in self.ctx.fns) and key not in self.ctx.fns:
             a = self.args(xs, env)
             return self.prim(segs[1], a)
         # registered callees (other translated bodies, generated tables)
@@ -1030,7 +1124,7 @@ class Lower:
         if len(segs) == 2 and segs[1] in ("new", "new_const"):
             name = self.self_ty if segs[0] == "Self" else segs[0]
             if self.ctx.resolve(name) in self.ctx.type_files: return self.construct(name, self.args(xs, env))
-        if len(segs) == 1 and segs[0] == "Self" and len(xs) == 1:      # `Self(x)` of a hue newtype
+        if len(segs) == 1 and (segs[0] == "Self" or segs[0].endswith("Hue")) and len(xs) == 1:      # `Self(x)` / `RgbHue(x)` of a hue newtype
             return self.expr(xs[0], env)
         if len(segs) == 2 and segs[1] in ("from_degrees", "new") and segs[0].endswith("Hue") and len(xs) == 1:
             return self.expr(xs[0], env)
@@ -1040,7 +1134,7 @@ class Lower:
         n = len(a)
         if name in self.prof and name != "kPI":
             tmpl = self.prof[name]
-            want = 2 if "{1}" in tmpl else 1
+            want = 3 if "{2}" in tmpl else 2 if "{1}" in tmpl else 1
             if n != want: fail(f"primitive {name} with {n} arguments")
             return Val(tmpl.format(*[self.scalar(x) for x in a]), ("tup", ["T", "T"]) if name == "min_max" else "T")
         if name in PRIM1 and n == 1:
@@ -1055,8 +1149,21 @@ class Lower:
             return Val(f"({PRIM3[name]} {self.scalar(a[0])} {self.scalar(a[1])} {self.scalar(a[2])})", "T")
         fail(f"primitive {name} with {n} arguments")
 
+    def clamp_prim(self, name, a):
+        """`clamp` / `clamp_min` / `clamp_max` (num.rs `Clamp`: `f32::clamp`, `f32::max`, `f32::min`; `Ord::..` for integers) in the reading of the family"""
+        if name in self.prof: return self.prim(name, a)
+        if name == "clamp": return self.prim("clamp", a)
+        return Val(f"({'Scalar.max' if name == 'clamp_min' else 'Scalar.min'} {self.scalar(a[0])} {self.scalar(a[1])})", "T")
+
     def mcall(self, e, env):
         recv, name, xs = e[1], e[2], e[3]
+        # `Option::from(E).map_or(D, |v| F)` (impl_is_within_bounds!): `E = None` -> D, otherwise F with `v := E` (`Option::from(x) = Some(x)`)
+        if name == "map_or" and len(xs) == 2 and recv[0] == "call" and recv[1][0] == "path" and recv[1][1] == ["Option", "from"] and len(recv[2]) == 1:
+            if recv[2][0] == ("path", ["None"], []): return self.expr(xs[0], env)
+            clo = xs[1]
+            if clo[0] != "closure" or len(clo[1]) != 1 or clo[1][0][0][0] != "pid": fail("map_or: a closure `|v| ..` expected")
+            env2 = dict(env); env2[clo[1][0][0][1]] = self.expr(recv[2][0], env)
+            return self.expr(clo[2], env2)
         # `LuvBounds::from_lightness(l).max_chroma_at_hue(h)` and similar two-step helpers registered as one callee
         if recv[0] == "call" and recv[1][0] == "path":
             key = "::".join(recv[1][1]) + "()." + name
@@ -1083,6 +1190,7 @@ class Lower:
             if name == "neq" and len(xs) == 1: return Val(f"(¬ Scalar.eqv {r.code} {self.scalar(self.expr(xs[0], env))})", "P")
             if name in PRIM1 or name in PRIM2 or name in PRIM3 or (name in self.prof and name != "kPI"):
                 return self.prim(name, [r] + self.args(xs, env))
+            if name in ("clamp_min", "clamp_max") and len(xs) == 1: return self.clamp_prim(name, [r] + self.args(xs, env))
             if ("T", name) in self.ctx.methods:                        # hue / angle helpers translated from their macro bodies
                 return self.apply_fn(self.ctx.methods[("T", name)], [r] + self.args(xs, env), name)
             fail(f"scalar method .{name}() is outside the translated subset")
@@ -1181,6 +1289,10 @@ class Lower:
         if e[3] is None: fail("`if` without `else` used as a value")
         a = self.expr(e[2], env)
         b = self.expr(e[3], env)
+        def intlit(x):       # `{ 0 }`: an integer literal block next to a `u8`-valued branch
+            return x[0] == "block" and not x[1] and x[2] is not None and x[2][0] == "num" and re.fullmatch(r"\d+", x[2][1])
+        if a.ty == "T" and b.ty == "N" and intlit(e[2]): a = Val(f"({e[2][2][1]} : Nat)", "N")
+        if b.ty == "T" and a.ty == "N" and intlit(e[3]): b = Val(f"({e[3][2][1]} : Nat)", "N")
         if a.ty != b.ty and not (a.ty != "T" and b.ty != "T" and a.ty[0] == "V3" and b.ty[0] == "V3"):
             fail(f"if: branch types differ ({a.ty!r} / {b.ty!r})")
         return Val(f"(if {self.as_cond(cv)} then {a.code} else {b.code})", a.ty)
@@ -1199,7 +1311,7 @@ class Lower:
         k = pat[0]
         if k == "pwild": return
         if k == "pid":
-            n = lname(pat[1])
+            n = "self_" if pat[1] == "self" else lname(pat[1])
             if v.ty != "T" and v.ty[0] in ("typeid", "static", "phantom"):
                 env[pat[1]] = v; return
             if v.ty == "P" and self.mask != "prop": v = Val(self.as_bool(v), "B")
@@ -1308,7 +1420,7 @@ class Lower:
             self.bind(s[1], v, env, lines)
             rest = self.stmts(ss, i + 1, tail, env)
             return Val("\n".join(lines + [rest.code]), rest.ty)
-        if s[0] == "assign" and s[1][0] == "field":
+        if s[0] == "assign" and s[1][0] in ("field", "index", "unary"):
             lines = []
             self.assign_place(s[1], self.expr(s[2], env), env, lines)
             rest = self.stmts(ss, i + 1, tail, env)
@@ -1336,6 +1448,25 @@ class Lower:
                 return self.for_loop(e, ss, i, tail, env)
             if e[0] == "block" and i == len(ss) - 1 and tail is None:
                 return self.block(e, env)
+            if e[0] == "mcall" and e[1][0] == "path" and len(e[1][1]) == 1 and e[1][1][0] in env:
+                # `self.lighten_assign(x);` where the callee is a translated `&mut self` method: the receiver is rebound to its result
+                rv = env[e[1][1][0]]
+                key = (self.ctx.resolve(rv.ty[1]) if rv.ty not in ("T", "B", "P", "C", "N") and rv.ty[0] == "V3" and rv.ty[1] else None, e[2])
+                d = self.ctx.methods.get(key)
+                if d is not None and d.get("mutates"):
+                    lines = []
+                    self.assign_place(e[1], self.apply_fn(d, [rv] + self.args(e[3], env), f"{key[0]}::{key[1]}"), env, lines)
+                    rest = self.stmts(ss, i + 1, tail, env)
+                    return Val("\n".join(lines + [rest.code]), rest.ty)
+            if e[0] == "call" and e[1][0] == "path" and e[1][1][-1] in CLAMP_ASSIGN_FNS and e[1][1][:-1] in CLAMP_PREFIXES:
+                # `crate::clamp_assign(&mut place, lo, hi);` (lib.rs / num.rs `ClampAssign`: `*place = clamp(*place, lo, hi)`)
+                name = CLAMP_ASSIGN_FNS[e[1][1][-1]]
+                if len(e[2]) != CLAMP_FNS[name] or e[2][0][0] != "unary" or e[2][0][1] != "&": fail(f"{e[1][1][-1]}: `&mut place` and {CLAMP_FNS[name] - 1} bound(s) expected")
+                place = e[2][0][2]
+                lines = []
+                self.assign_place(place, self.clamp_prim(name, [self.expr(place, env)] + self.args(e[2][1:], env)), env, lines)
+                rest = self.stmts(ss, i + 1, tail, env)
+                return Val("\n".join(lines + [rest.code]), rest.ty)
             fail(f"expression statement of kind {e[0]!r} has no effect the translation can express")
         fail(f"statement {s[0]!r}")
 
@@ -1444,6 +1575,12 @@ class Lower:
             n, f = place[1][1][0], place[2]
             if n not in env: fail(f"assignment to a field of unbound {n}")
             sv = env[n]
+            if sv.ty not in ("T", "B", "P", "C", "N") and sv.ty[0] == "V3" and sv.ty[1] is not None:      # `self.l = v` on a colour: the other components unchanged
+                fs = self.ctx.fields(sv.ty[1])
+                if f not in fs: fail(f"{sv.ty[1]} has no field {f}")
+                if v.ty != "T": fail(f"assignment changes the type of {n}.{f}")
+                comps = [v.code if g == f else f"{sv.code}.c{j}" for j, g in enumerate(fs)]
+                self.bind(("pid", n, True), Val("(V3.mk " + " ".join(comps) + ")", sv.ty), env, lines); return
             if sv.ty in ("T", "B", "P", "C") or sv.ty[0] != "S": fail(f"field assignment on {sv.ty!r}")
             info = struct_info(sv.ty[1])
             args, hit = {}, False
@@ -1454,6 +1591,10 @@ class Lower:
                 else: args[rf] = tmpl.replace("{}", sv.code)
             if not hit: fail(f"{sv.ty[1]} has no field {f}")
             self.bind(("pid", n, True), Val(info["mk"].format(**args), sv.ty), env, lines); return
+        if place[0] == "index" and place[2] == 0 and place[1][0] == "path" and len(place[1][1]) == 1:      # `self.0 = v` of a hue newtype
+            n = place[1][1][0]
+            if n not in env or env[n].ty != "T" or v.ty != "T": fail(f"assignment to {n}.0")
+            self.bind(("pid", n, True), v, env, lines); return
         fail("assignment to something other than a local variable or a field of one")
 
     def zip_loop(self, e, ss, i, tail, env):
@@ -1941,6 +2082,98 @@ UNTRANSLATED_BLEND = [
     "`IsValidDivisor::is_valid_divisor`, `clamp`, `MinMax::{min,max}`, `Abs::abs`, `Sqrt::sqrt`: per-type primitives (`class Scalar`)",
 ]
 
+
+# ------------------------------------------------------------------------------------------------ families: clamp / bounds (C03), operators (C10), hues (C11)
+# The operator code is macro-generated: every body below is read from the *expansion of an actual invocation* (tools/rust_macros.py matches the
+# invocation against the arms of the `macro_rules!` as written now and transcribes the selected arm), so the per-type bound expressions, the
+# `increase` / `other` component lists, the optional upper bounds etc. flow from the invocation into the translated term.
+MACRO_FILES = ["macros/clamp.rs", "macros/mix.rs", "macros/lighten_saturate.rs", "macros/hue.rs", "macros/arithmetics.rs", "macros/color_theory.rs",
+               "stimulus.rs", "angle.rs"]
+
+# three-component colour types: (definition file = where the struct and its `min_*`/`max_*` accessors live, file of the operator macro invocations)
+TYPES3 = {
+    "Lab": ("lab.rs", "lab.rs"), "Lch": ("lch.rs", "lch.rs"), "Luv": ("luv.rs", "luv.rs"), "Lchuv": ("lchuv.rs", "lchuv.rs"), "Hsluv": ("hsluv.rs", "hsluv.rs"),
+    "Hsv": ("hsv.rs", "hsv.rs"), "Hsl": ("hsl.rs", "hsl.rs"), "Hwb": ("hwb.rs", "hwb.rs"), "Rgb": ("rgb/rgb.rs", "rgb/rgb.rs"), "Xyz": ("xyz.rs", "xyz.rs"),
+    "Yxy": ("yxy.rs", "yxy.rs"), "Lms": ("lms/lms.rs", "lms/lms.rs"),
+    "Oklab": ("oklab.rs", "oklab/properties.rs"), "Oklch": ("oklch.rs", "oklch/properties.rs"), "Okhsl": ("okhsl.rs", "okhsl/properties.rs"),
+    "Okhsv": ("okhsv.rs", "okhsv/properties.rs"), "Okhwb": ("okhwb.rs", "okhwb/properties.rs"),
+    "Cam16UcsJab": ("cam16/ucs_jab.rs", "cam16/ucs_jab.rs"), "Cam16UcsJmh": ("cam16/ucs_jmh.rs", "cam16/ucs_jmh.rs"),
+}
+TYPES3_FILES = {t: [d] for t, (d, _) in TYPES3.items()}
+
+def camel(s): return "".join(w[:1].upper() + w[1:] for w in s.split("_"))
+
+def has_invocation(read_src, file, macro, ty):
+    return re.search(r"(?<![\w$])" + macro + r"\s*!\s*[({]\s*" + ty + r"\b", read_src(file)) is not None
+
+def accessor_bodies(read_src, prefix, types, uses):
+    """the `pub fn min_*/max_*() -> T` accessors of `types`, as helper bodies `<prefix><Ty><Fn>` (callable as `<Ty>::<fn>`); `uses(ty, fn)`: is it needed"""
+    out = []
+    for ty in types:
+        src = read_src(TYPES3[ty][0])
+        for m in re.finditer(r"\bpub\s+fn\s+((?:min|max)_\w+)\s*\(\s*\)\s*->\s*T\b", src):
+            fn = m.group(1)
+            if not uses(ty, fn): continue
+            _, _, body = find_fn(src, None, fn)
+            out.append(B(f"{prefix}{ty}{camel(fn)}", TYPES3[ty][0], None, fn, None, self_ty=ty, as_fn=[f"{ty}::{fn}"], wp="Wp::get_xyz" in body,
+                         consts_from=["ok_utils.rs"] if "ok_utils::" in body else None))
+    return out
+
+def uses_wp(read_src, ty, text):
+    """does `text` (an expansion) call an accessor of `ty` that reads the white point"""
+    src = read_src(TYPES3[ty][0])
+    for fn in set(re.findall(r"Self\s*::\s*((?:min|max)_\w+)", text)):
+        try:
+            if "Wp::get_xyz" in find_fn(src, None, fn)[2]: return True
+        except Untranslatable:
+            pass
+    return False
+
+def impl_in(trait, ty):
+    """regex of `impl<..> <trait> for <ty>` in an expansion (tokens separated by single spaces)"""
+    return (r"impl\s*<[^{]*?>\s*" + r"\s*::\s*".join(trait.split("::")) + r"(?:\s*<[^{]*?>)?\s+for\s+" + ty + r"\b", f"impl {trait} for {ty}")
+
+def bodies_clamp(read_src):
+    eng = rust_macros.Engine(read_src, tokenize, MACRO_FILES)
+    plain = [t for t in TYPES3 if has_invocation(read_src, TYPES3[t][1], "impl_clamp", t)]
+    hwb = [t for t in TYPES3 if has_invocation(read_src, TYPES3[t][1], "impl_clamp_hwb", t)]
+    texts = {}
+    for t in plain: texts[t] = eng.expand_invocation(TYPES3[t][1], "impl_clamp", t)[0] + eng.expand_invocation(TYPES3[t][1], "impl_is_within_bounds", t)[0]
+    for t in hwb: texts[t] = eng.expand_invocation(TYPES3[t][1], "impl_clamp_hwb", t)[0] + eng.expand_invocation(TYPES3[t][1], "impl_is_within_bounds_hwb", t)[0]
+    out = accessor_bodies(read_src, "bound", plain + hwb, lambda ty, fn: re.search(r"Self\s*::\s*" + fn + r"\b", texts[ty]) is not None)
+    for t in plain:
+        inv, wp = TYPES3[t][1], uses_wp(read_src, t, texts[t])
+        cf = ["ok_utils.rs"] if "ok_utils" in texts[t] else None
+        out.append(B(f"clamp{t}", inv, impl_in("crate::Clamp", t), "clamp", "Clamp.clampAll", self_ty=t, expand=(inv, "impl_clamp", t), wp=wp, consts_from=cf))
+        out.append(B(f"clampAssign{t}", inv, impl_in("crate::ClampAssign", t), "clamp_assign", "Clamp.clampAll", self_ty=t, expand=(inv, "impl_clamp", t),
+                     inout="self", wp=wp, consts_from=cf))
+        out.append(B(f"within{t}", inv, impl_in("crate::IsWithinBounds", t), "is_within_bounds", "Clamp.withinAll", self_ty=t,
+                     expand=(inv, "impl_is_within_bounds", t), wp=wp, consts_from=cf))
+    for t in hwb:
+        inv = TYPES3[t][1]
+        out.append(B(f"clamp{t}", inv, impl_in("crate::Clamp", t), "clamp", "Clamp.hwbClamp", self_ty=t, expand=(inv, "impl_clamp_hwb", t)))
+        out.append(B(f"clampAssign{t}", inv, impl_in("crate::ClampAssign", t), "clamp_assign", "Clamp.hwbClamp", self_ty=t, expand=(inv, "impl_clamp_hwb", t), inout="self"))
+        out.append(B(f"within{t}", inv, impl_in("crate::IsWithinBounds", t), "is_within_bounds", "Clamp.hwbWithin", self_ty=t, expand=(inv, "impl_is_within_bounds_hwb", t)))
+    for b in out: b.setdefault("prims", "clamp")
+    return out
+
+PROFILES["clamp"] = {"clamp": "(Clamp.clampV {0} {1} {2})", "clamp_min": "(Clamp.clampMinV {0} {1})", "clamp_max": "(Clamp.clampMaxV {0} {1})"}
+
+# lib.rs wrappers read as the `num::Clamp` / `num::ClampAssign` methods they forward to (text pinned: a change stops the run until the reading is re-confirmed)
+CLAMP_PINS = [("lib.rs", "clamp", "`value.clamp(min, max)` (num::Clamp)", "c71da6ceae62a98c"), ("lib.rs", "clamp_min", "`value.clamp_min(min)`", "1c6097fd60755292"),
+              ("lib.rs", "clamp_assign", "`value.clamp_assign(min, max)` (num::ClampAssign: `*value = clamp(*value, min, max)`)", "81bc1cb33b9d96a1"),
+              ("lib.rs", "clamp_min_assign", "`value.clamp_min_assign(min)`", "fe7a9ecd60fb3a2b")]
+
+UNTRANSLATED_CLAMP = [
+    "`impl_clamp!` / `impl_is_within_bounds!` at `Luma` (one component), `Cam16` (six) and the six partial CAM16 types (`$name` inside `make_partial_cam16!`):",
+    "  the same macro bodies, translated here at every three-component invocation; their bound tables are extracted data (Gen/Bounds.lean, C03_Clamp)",
+    "`Alpha<C, T>` (`alpha/alpha.rs`: colour and alpha clamped separately), `[T]` slices (`lib.rs`: `for_each`), `FromColor` / `TryFromColor`",
+    "  (`convert/*.rs`: trait-dispatched `from_color_unclamped` followed by `clamp` / `is_within_bounds`): C03_Clamp law-free theorems + correspondence run",
+    "`num::Clamp` / `num::ClampAssign` for f32/f64/integers (`f32::clamp`, `f32::max`, `f32::min`, `Ord::..`) and the lib.rs wrappers `clamp`, `clamp_min`,",
+    "  `clamp_assign`, `clamp_min_assign` (pinned by digest): per-type primitives, read as `Clamp.clampV`, `Clamp.clampMinV`, `Clamp.clampMaxV` (order-only model)",
+    "`BoolMask::from_bool`, `Select::select` for `bool`: the identity / `if`",
+]
+
 FAMILIES = {
     "blend": dict(file="BodiesBlend.lean", tie="Tie_Blend.lean", imports=["PaletteModel.Blend"], bodies=BODIES_BLEND,
                   what="blending and compositing (C08): blend.rs, blend/blend.rs, blend/compose.rs, blend/blend_with.rs, blend/equations.rs, blend/pre_alpha.rs, alpha/alpha.rs, macros/blend.rs",
@@ -1970,15 +2203,436 @@ FAMILIES = {
                   enums=["Surround", "Discounting", "LuminanceType", "ChromaticityType"]),
 }
 
+# ---- colour operators (C10)
+ANGLE_FLOAT = (r"macro_rules!\s+impl_angle_float\b", "macro_rules! impl_angle_float")
+ARITH = [("add", "Add", "+"), ("sub", "Sub", "-"), ("mul", "Mul", "*"), ("div", "Div", "/")]
+
+def trait_in(trait, arg, ty):
+    """`impl<..> <trait><arg> for <ty>` in an expansion"""
+    return (r"impl\s*<[^{]*?>\s*" + r"\s*::\s*".join(trait.split("::")) + r"\s*<\s*" + arg + r"\s*>\s*for\s+" + ty + r"\b", f"impl {trait}<{arg}> for {ty}")
+
+def bodies_ops(read_src):
+    eng = rust_macros.Engine(read_src, tokenize, MACRO_FILES)
+    def has(t, macro): return has_invocation(read_src, TYPES3[t][1], macro, t)
+    def exp(t, macro): return eng.expand_invocation(TYPES3[t][1], macro, t)[0]
+    texts = {t: "".join(exp(t, m) for m in ("impl_lighten", "impl_saturate", "impl_lighten_hwb") if has(t, m)) for t in TYPES3}
+    out = [
+        # angle.rs / hues.rs helpers the operator bodies go through (`(other.hue - self.hue).into_degrees()`, `T::Scalar::half_rotation()`)
+        B("opsNormalizeSigned", "angle.rs", ANGLE_FLOAT, "normalize_signed_angle", "Ops.normSigned", self_ty="T", as_method=[("T", "normalize_signed_angle")]),
+        B("opsHalfRotation", "angle.rs", ANGLE_FLOAT, "half_rotation", "Ops.halfRotation", self_ty="T", as_fn=["T::half_rotation"]),
+        B("opsHueIntoDegrees", "hues.rs", HUES, "into_degrees", None, self_ty="Hue", as_method=[("T", "into_degrees")]),
+    ]
+    out += accessor_bodies(read_src, "lim", list(TYPES3), lambda ty, fn: re.search(r"Self\s*::\s*" + fn + r"\b", texts[ty]) is not None)
+    for t in TYPES3:
+        inv = TYPES3[t][1]
+        # component arithmetic first (`impl_mix!` is written with it)
+        for fn, tr, _ in ARITH:
+            m = "impl_color_" + fn
+            if not has(t, m): continue
+            out.append(B(f"{fn}{t}", inv, trait_in("core::ops::" + tr, "Self", t), fn, f"Ops.{fn}C", self_ty=t, expand=(inv, m, t)))
+            out.append(B(f"{fn}S{t}", inv, trait_in("core::ops::" + tr, "T", t), fn, f"Ops.{fn}S", self_ty=t, expand=(inv, m, t)))
+            out.append(B(f"{fn}Assign{t}", inv, trait_in(f"core::ops::{tr}Assign", "Self", t), fn + "_assign", f"Ops.{fn}AssignC", self_ty=t, expand=(inv, m, t), inout="self"))
+            out.append(B(f"{fn}AssignS{t}", inv, trait_in(f"core::ops::{tr}Assign", "T", t), fn + "_assign", f"Ops.{fn}AssignS", self_ty=t, expand=(inv, m, t), inout="self"))
+        if has(t, "impl_mix"):
+            out.append(B(f"mix{t}", inv, impl_in("crate::Mix", t), "mix", "Ops.mixLin", self_ty=t, expand=(inv, "impl_mix", t)))
+            out.append(B(f"mixAssign{t}", inv, impl_in("crate::MixAssign", t), "mix_assign", "Ops.mixLinAssign", self_ty=t, expand=(inv, "impl_mix", t), inout="self"))
+        if has(t, "impl_mix_hue"):
+            out.append(B(f"mix{t}", inv, impl_in("crate::Mix", t), "mix", "Ops.mixHue", self_ty=t, expand=(inv, "impl_mix_hue", t)))
+            out.append(B(f"mixAssign{t}", inv, impl_in("crate::MixAssign", t), "mix_assign", "Ops.mixHueAssign", self_ty=t, expand=(inv, "impl_mix_hue", t), inout="self"))
+        for kind, Kind in (("lighten", "Lighten"), ("saturate", "Saturate")):
+            m = "impl_" + kind
+            if not has(t, m): continue
+            wp = uses_wp(read_src, t, exp(t, m))
+            out.append(B(f"{kind}{t}", inv, impl_in("crate::" + Kind, t), kind, "Ops.incValue", self_ty=t, expand=(inv, m, t), wp=wp, as_method=[(t, kind)]))
+            out.append(B(f"{kind}Fixed{t}", inv, impl_in("crate::" + Kind, t), kind + "_fixed", "Ops.incFixedValue", self_ty=t, expand=(inv, m, t), wp=wp, as_method=[(t, kind + "_fixed")]))
+            out.append(B(f"{kind}Assign{t}", inv, impl_in(f"crate::{Kind}Assign", t), kind + "_assign", "Ops.incAssign", self_ty=t, expand=(inv, m, t), wp=wp, inout="self",
+                         as_method=[(t, kind + "_assign")]))
+            out.append(B(f"{kind}FixedAssign{t}", inv, impl_in(f"crate::{Kind}Assign", t), kind + "_fixed_assign", "Ops.incFixedAssign", self_ty=t, expand=(inv, m, t), wp=wp,
+                         inout="self", as_method=[(t, kind + "_fixed_assign")]))
+        if has(t, "impl_lighten_hwb"):
+            m = "impl_lighten_hwb"
+            out.append(B(f"lighten{t}", inv, impl_in("crate::Lighten", t), "lighten", "Ops.hwbLighten", self_ty=t, expand=(inv, m, t)))
+            out.append(B(f"lightenFixed{t}", inv, impl_in("crate::Lighten", t), "lighten_fixed", "Ops.hwbLightenFixed", self_ty=t, expand=(inv, m, t)))
+            out.append(B(f"lightenAssign{t}", inv, impl_in("crate::LightenAssign", t), "lighten_assign", "Ops.hwbLightenAssign", self_ty=t, expand=(inv, m, t), inout="self"))
+            out.append(B(f"lightenFixedAssign{t}", inv, impl_in("crate::LightenAssign", t), "lighten_fixed_assign", "Ops.hwbLightenFixedAssign", self_ty=t, expand=(inv, m, t), inout="self"))
+        if has(t, "impl_hue_ops"):
+            m = "impl_hue_ops"
+            out.append(B(f"getHue{t}", inv, impl_in("crate::GetHue", t), "get_hue", "Ops.getHue", self_ty=t, expand=(inv, m, t)))
+            out.append(B(f"withHue{t}", inv, trait_in("crate::WithHue", "H", t), "with_hue", "Ops.withHue", self_ty=t, expand=(inv, m, t), ptypes={"hue": "T"}))
+            out.append(B(f"setHue{t}", inv, trait_in("crate::SetHue", "H", t), "set_hue", "Ops.setHue", self_ty=t, expand=(inv, m, t), ptypes={"hue": "T"}, inout="self"))
+            out.append(B(f"shiftHue{t}", inv, impl_in("crate::ShiftHue", t), "shift_hue", "Ops.shiftHue", self_ty=t, expand=(inv, m, t), as_method=[(t, "shift_hue")]))
+            out.append(B(f"shiftHueAssign{t}", inv, impl_in("crate::ShiftHueAssign", t), "shift_hue_assign", "Ops.shiftHueAssign", self_ty=t, expand=(inv, m, t), inout="self"))
+        if has(t, "impl_lab_color_schemes"):
+            m = "impl_lab_color_schemes"
+            out.append(B(f"complementary{t}", inv, impl_in("crate::color_theory::Complementary", t), "complementary", "Ops.labComplementary", self_ty=t, expand=(inv, m, t),
+                         as_method=[(t, "complementary")]))
+            out.append(B(f"tetradic{t}", inv, impl_in("crate::color_theory::Tetradic", t), "tetradic", "Ops.labTetradic", self_ty=t, expand=(inv, m, t)))
+    # blanket impls, translated at one implementing type per hue position (`Hsv`: hue first, `Lch`: hue last); the trait-dispatched inner
+    # call resolves to the translated body of that type
+    for t in ("Hsv", "Lch"):
+        for fn, lean in (("complementary", "complementary"), ("split_complementary", "splitComplementary"), ("analogous", "analogous"),
+                         ("analogous_secondary", "analogousSecondary"), ("triadic", "triadic"), ("tetradic", "tetradic")):
+            tr = {"analogous_secondary": "Analogous"}.get(fn, camel(fn))
+            out.append(B(f"{lean}{t}", "color_theory.rs", impl_of(f"{tr} for T"), fn, f"Ops.{lean}", self_ty=t, scalars=["T::Scalar"]))
+    for t, kind, Kind, dec, Dec in (("Lab", "lighten", "Lighten", "darken", "Darken"), ("Hsl", "lighten", "Lighten", "darken", "Darken"),
+                                    ("Hsv", "saturate", "Saturate", "desaturate", "Desaturate"), ("Lch", "saturate", "Saturate", "desaturate", "Desaturate")):
+        out.append(B(f"{dec}{t}", "lib.rs", impl_of(f"{Dec} for T"), dec, "Ops.decValue", self_ty=t))
+        out.append(B(f"{dec}Fixed{t}", "lib.rs", impl_of(f"{Dec} for T"), dec + "_fixed", "Ops.decFixedValue", self_ty=t))
+        out.append(B(f"{dec}Assign{t}", "lib.rs", impl_of(f"{Dec}Assign for T"), dec + "_assign", "Ops.decAssign", self_ty=t, inout="self"))
+        out.append(B(f"{dec}FixedAssign{t}", "lib.rs", impl_of(f"{Dec}Assign for T"), dec + "_fixed_assign", "Ops.decFixedAssign", self_ty=t, inout="self"))
+    return out
+
+UNTRANSLATED_OPS = [
+    "the operator macros at `Luma` (one component) and the six partial CAM16 types (`$name` inside `make_partial_cam16!`): the same macro bodies, translated",
+    "  here at every invocation for a three-component colour type; which type gets which macro with which components is extracted data (Gen/Ops.lean, C10_Ops)",
+    "`Alpha<C, T>` / `PreAlpha<C>` forwarding impls (alpha/alpha.rs, blend/pre_alpha.rs), the `[T]` slice impls of lib.rs (`for color in self { .. }`), the",
+    "  `Alpha` arms of `impl_lab_color_schemes!`: trait-dispatched calls on a generic colour; C10_LawFree proves them against the model, the oracle compares bits",
+    "`SaturatingAdd` / `SaturatingSub` arms of `impl_color_add!` / `impl_color_sub!` (integer components; outside C10's quantifier)",
+    "`num::Clamp` / `ClampAssign` / `MinMax` for f32/f64 (`f32::clamp`, `f32::max`, `f32::min`) and the lib.rs wrappers `clamp`, `clamp_assign`, `clamp_min_assign`",
+    "  (pinned by digest): per-type primitives, read as `Scalar.clamp`, `Scalar.max`, `Scalar.min` as Ops.lean does; `lazy_select!` for `bool` masks: `if`",
+    "`Hue + T`, `Hue - Hue`, `Hue += T` (hues.rs `make_hues!`): the stored angle, translated and tied in the family `hue` (Tie_Hue.lean)",
+]
+
+# ---- hues as angles (C11): angle.rs (`impl_angle_float!`, `impl_from_angle_u8!`) and hues.rs (`make_hues!`), in the reading of PaletteModel/Hue.lean
+PROFILES["hue"] = {"to_radians": "({0} * (Hue.AngleConsts.radsPerDeg : α))", "to_degrees": "({0} * (Hue.AngleConsts.degsPerRad : α))",
+                   "pi": "(Hue.AngleConsts.pi : α)", "cast_u8_T": "(Hue.AngleConsts.ofU8 {0} : α)", "cast_T_u8": "(Hue.AngleConsts.toU8 {0})"}
+HU = dict(prims="hue", mask="prop", inst="[Hue.AngleConsts α]")
+FROM_U8 = (r"macro_rules!\s+impl_from_angle_u8\b", "macro_rules! impl_from_angle_u8")
+U8ARGS = dict(macro_args={"float_ty": "f32"}, invocation=("angle.rs", "impl_from_angle_u8", "f32, f64"), scalars=["f32"])
+RGBHUE = dict(macro_args={"name": "RgbHue"}, invocation_rx=("hues.rs", r"make_hues!\s*\{[^}]*\bstruct\s+RgbHue\s*;"))
+def in_hues(head): return (r"impl\s*(?:<[^{>]*>)?\s*" + r"\s*".join(re.escape(x) for x in re.findall(r"\$?\w+|[^\w\s]", head)) + r"(?![\w<])", "impl " + head + " (make_hues!)")
+def hue_arith(fn, lean):
+    """the four impls of `Add` / `Sub` / `AddAssign` / `SubAssign` inside `make_hues!`: hue ∘ hue, hue ∘ T, f32 ∘ hue, f64 ∘ hue (in source order)"""
+    assign = fn.endswith("_assign")
+    return [B(f"hues{camel(fn)}{i}", "hues.rs", HUES, fn, lean, nth=i, self_ty="Hue" if i < 2 else "T", scalars=["f32", "f64"],
+              **(dict(inout="self") if assign else {}), **RGBHUE, **HU) for i in range(4)]
+
+BODIES_HUE = [
+    # ---- angle.rs `impl_angle_float!` (f32, f64)
+    B("angHalfRotation", "angle.rs", ANGLE_FLOAT, "half_rotation", "Hue.halfRotation", self_ty="T", as_fn=["T::half_rotation"], **HU),
+    B("angFullRotation", "angle.rs", ANGLE_FLOAT, "full_rotation", "Hue.fullRotation", self_ty="T", as_fn=["T::full_rotation"], **HU),
+    B("angDegreesToRadians", "angle.rs", ANGLE_FLOAT, "degrees_to_radians", "Hue.degreesToRadians", self_ty="T", as_fn=["T::degrees_to_radians"], **HU),
+    B("angRadiansToDegrees", "angle.rs", ANGLE_FLOAT, "radians_to_degrees", "Hue.radiansToDegrees", self_ty="T", as_fn=["T::radians_to_degrees"], **HU),
+    B("angNormalizeSigned", "angle.rs", ANGLE_FLOAT, "normalize_signed_angle", "Hue.normalizeSigned", self_ty="T", as_method=[("T", "normalize_signed_angle")], **HU),
+    B("angNormalizeUnsigned", "angle.rs", ANGLE_FLOAT, "normalize_unsigned_angle", "Hue.normalizeUnsigned", self_ty="T", as_method=[("T", "normalize_unsigned_angle")], **HU),
+    B("angAngleEq", "angle.rs", ANGLE_FLOAT, "angle_eq", "Hue.angleEq", self_ty="T", rty="P", as_method=[("T", "angle_eq")], **HU),
+    # ---- angle.rs `impl_from_angle_u8!` instantiated at f32 (of `impl_from_angle_u8!(f32, f64)`): u8 -> float, float -> u8
+    B("angFromU8", "angle.rs", FROM_U8, "from_angle", "Hue.u8ToFloat", nth=0, self_ty="T", **U8ARGS, **HU),
+    B("angIntoU8", "angle.rs", FROM_U8, "from_angle", "Hue.floatToU8", nth=1, self_ty="u8", **U8ARGS, **HU),
+    # ---- hues.rs `make_hues!` (one macro body for the five hue types; `$name` instantiated at `RgbHue` where it occurs): `self.0` = the stored degrees
+    B("huesNew", "hues.rs", HUES, "new", "Hue.fromDegrees", self_ty="Hue", as_fn=["Self::new"], **HU),
+    B("huesIntoInner", "hues.rs", HUES, "into_inner", "Hue.intoRawDegrees", self_ty="Hue", **HU),
+    B("huesFromDegrees", "hues.rs", HUES, "from_degrees", "Hue.fromDegrees", self_ty="Hue", **HU),
+    B("huesFromRadians", "hues.rs", HUES, "from_radians", "Hue.fromRadians", self_ty="Hue", as_fn=["Self::from_radians"], **HU),
+    B("huesIntoRawDegrees", "hues.rs", HUES, "into_raw_degrees", "Hue.intoRawDegrees", self_ty="Hue", **HU),
+    B("huesIntoRawRadians", "hues.rs", HUES, "into_raw_radians", "Hue.intoRawRadians", self_ty="Hue", as_method=[("T", "into_raw_radians")], **HU),
+    B("huesIntoDegrees", "hues.rs", HUES, "into_degrees", "Hue.intoDegrees", self_ty="Hue", **HU),
+    B("huesIntoRadians", "hues.rs", HUES, "into_radians", "Hue.intoRadians", self_ty="Hue", **HU),
+    B("huesIntoPositiveDegrees", "hues.rs", HUES, "into_positive_degrees", "Hue.intoPositiveDegrees", self_ty="Hue", **HU),
+    B("huesIntoPositiveRadians", "hues.rs", HUES, "into_positive_radians", "Hue.intoPositiveRadians", self_ty="Hue", **HU),
+    B("huesFromCartesian", "hues.rs", HUES, "from_cartesian", "Hue.fromCartesian", self_ty="Hue", **HU),
+    B("huesIntoCartesian", "hues.rs", HUES, "into_cartesian", "Hue.intoCartesian", self_ty="Hue", **HU),
+    B("huesFromT", "hues.rs", in_hues("From<T> for $name<T>"), "from", "Hue.fromDegrees", self_ty="Hue", **RGBHUE, **HU),
+    B("huesIntoF64", "hues.rs", in_hues("From<$name<f64>> for f64"), "from", "Hue.intoDegrees", self_ty="T", scalars=["f64"], **RGBHUE, **HU),
+    B("huesIntoF32", "hues.rs", in_hues("From<$name<f32>> for f32"), "from", "Hue.intoDegrees", self_ty="T", scalars=["f32"], **RGBHUE, **HU),
+    B("huesEq", "hues.rs", in_hues("PartialEq for $name<T>"), "eq", "Hue.hueEq", self_ty="Hue", rty="P", **RGBHUE, **HU),
+    B("huesEqT", "hues.rs", in_hues("PartialEq<T> for $name<T>"), "eq", "Hue.hueEq", self_ty="Hue", rty="P", **RGBHUE, **HU),
+] + hue_arith("add", "Hue.add") + hue_arith("add_assign", "Hue.add") + hue_arith("sub", "Hue.sub") + hue_arith("sub_assign", "Hue.sub")
+
+UNTRANSLATED_HUE = [
+    "`$name::into_format` / `from_format` (`$name(U::from_angle(self.0))`: trait-dispatched `FromAngle`; its f32/f64 <-> u8 instances ARE translated: `angFromU8`,",
+    "  `angIntoU8`), `impl_from_angle_float!` (`angle as $ty`: the primitive cast between f32 and f64) and `From<$name<f32>> for f64` / `From<$name<f64>> for f32`",
+    "  (`normalize_signed_angle() as f64`: the translated normal form followed by that primitive cast)",
+    "`u8` angles (`half_rotation = 128`, `angle_eq = ==`, `normalize_unsigned_angle = self`), the SIMD copies in angle/wide.rs (same text, pinned by",
+    "  `C11.source_as_modelled`), the `&T` / `&mut T` / `Vec<T>` accessors of `make_hues!`, `approx` and `rand` impls: not part of the model",
+    "`f32/f64::to_radians`, `to_degrees`, `round`, `floor`, `ceil`, `atan2`, `sin_cos`, `u8 as f32`, `f32 as u8`: per-type primitives, read as multiplication by",
+    "  `AngleConsts.radsPerDeg` / `degsPerRad`, the fields of `class Scalar`, `AngleConsts.ofU8` / `toU8` (PaletteModel/Hue.lean; compared bit for bit on every run)",
+]
+
+# ------------------------------------------------------------------------------------------------ monomorphic bit-level lowering (stimulus.rs, C06)
+# stimulus.rs is not generic float code: every arm is monomorphic in (source, target) ∈ {f32, f64, u8, u16, u32, u64, u128}², uses `to_bits`,
+# `from_bits`, `saturating_sub`, `<<`, `|` and `as` casts.  `MonoLower` translates that subset with *typed* values onto Lean core's kernel-transparent
+# `Float32` / `Float` / `UIntN` (`u128` is `Nat`: core has no 128-bit word), the representation PaletteModel/Stimulus.lean is written in.
+# What the language (not palette) defines is read as follows (the per-type primitives of this family; each reading is a definition of
+# Stimulus.lean that the correspondence run compares with the hardware on every run):
+#   f32::min/max -> Stim.min32/max32 (IEEE minNum/maxNum), f64 likewise;  f32::clamp -> Stim.clamp32;  f32::round -> Stim.round32;  recip -> 1.0 / x
+#   x as f64 (f32) -> Stim.f32ToF64;  x as f32 (f64) -> Stim.f64ToF32;  u8/u16 as f32/f64 -> core `toFloat32` / `toFloat`;  u32/u64/u128 as f64 -> Stim.natToF64
+#   f64 as uN (saturating) -> Stim.f64CastNat N;  f32 as u8 -> core `Float32.toUInt8`;  uA as uB -> core `toUIntB` (zero-extend / truncate), `toNat` / `ofNat` at u128
+#   uN::MAX -> the numeral 2^N - 1;  Self::BITS -> the numeral N;  a float literal -> its bit pattern (exactly representable literals only)
+import struct
+MONO_LEAN = {"f32": "Float32", "f64": "Float", "u8": "UInt8", "u16": "UInt16", "u32": "UInt32", "u64": "UInt64", "u128": "Nat", "bool": "Bool"}
+UBITS = {"u8": 8, "u16": 16, "u32": 32, "u64": 64, "u128": 128}
+
+class MonoLower:
+    def __init__(self, consts, bodies, self_ty, ret_ty):
+        self.consts = consts          # module constants: name -> (type, literal)
+        self.bodies = bodies          # (src, dst) -> Lean name of the translated `IntoStimulus<dst> for src`; ("max", ty) -> of `max_intensity`
+        self.self_ty, self.ret_ty = self_ty, ret_ty
+
+    def flit(self, lit, ty):
+        lit = re.sub(r"_?(f32|f64)$", "", lit).replace("_", "")
+        x = float(lit)
+        if ty == "f32":
+            b = struct.unpack(">I", struct.pack(">f", x))[0]
+            if struct.unpack(">f", struct.pack(">I", b))[0] != x: fail(f"float literal {lit} is not exactly representable in f32")
+            return Val(f"(Float32.ofBits 0x{b:08x})", "f32")
+        if ty == "f64":
+            if "e" in lit.lower() or len(lit.replace(".", "").lstrip("0")) > 15: fail(f"float literal {lit}: only short decimal literals")
+            return Val(f"(Float.ofBits 0x{struct.unpack('>Q', struct.pack('>d', x))[0]:016x})", "f64")
+        fail(f"float literal {lit} where a {ty} is expected")
+
+    def ilit(self, n, ty):
+        if ty not in UBITS or not 0 <= n < 2 ** UBITS[ty]: fail(f"integer literal {n} for {ty}")
+        return Val(f"({n} : {MONO_LEAN[ty]})", ty)
+
+    def cast(self, v, to):
+        a = v.ty
+        if a == to: return v
+        if a in UBITS and to in UBITS:
+            if to == "u128": return Val(f"{v.code}.toNat" if re.fullmatch(r"[\w.']+", v.code) else f"({v.code}).toNat", to)
+            if a == "u128": return Val(f"({MONO_LEAN[to]}.ofNat {v.code})", to)
+            return Val(f"({v.code}).to{MONO_LEAN[to]}" if not re.fullmatch(r"[\w.']+", v.code) else f"{v.code}.to{MONO_LEAN[to]}", to)
+        if a in ("u8", "u16") and to == "f32": return Val(f"({v.code}).toFloat32", to)
+        if a in ("u8", "u16") and to == "f64": return Val(f"({v.code}).toFloat", to)
+        if a in ("u32", "u64") and to == "f64": return Val(f"(Stim.natToF64 ({v.code}).toNat)", to)
+        if a == "u128" and to == "f64": return Val(f"(Stim.natToF64 {v.code})", to)
+        if a == "f32" and to == "f64": return Val(f"(Stim.f32ToF64 {v.code})", to)
+        if a == "f64" and to == "f32": return Val(f"(Stim.f64ToF32 {v.code})", to)
+        if a == "f64" and to in UBITS:
+            c = f"(Stim.f64CastNat {UBITS[to]} {v.code})"
+            return Val(c if to == "u128" else f"({MONO_LEAN[to]}.ofNat {c})", to)
+        if a == "f32" and to == "u8": return Val(f"({v.code}).toUInt8", to)
+        fail(f"`as {to}` on a {a} is outside the translated subset")
+
+    def expr(self, e, env, expect=None):
+        k = e[0]
+        if k == "num":
+            if re.fullmatch(r"0x[0-9a-fA-F_]+|\d[\d_]*", e[1]):
+                if expect is None: fail(f"integer literal {e[1]} without expected type")
+                return self.ilit(int(e[1].replace("_", ""), 0), expect)
+            if expect is None: fail(f"float literal {e[1]} without expected type")
+            return self.flit(e[1], expect)
+        if k == "path":
+            segs = e[1]
+            if len(segs) == 1:
+                if segs[0] in env: return env[segs[0]]
+                if segs[0] in self.consts:
+                    ty, lit = self.consts[segs[0]]
+                    v = self.ilit(int(lit.replace("_", ""), 0), ty)
+                    return Val(f"(0x{int(lit.replace('_', ''), 0):x} : {MONO_LEAN[ty]})", ty) if lit.startswith("0x") else v
+                fail(f"unbound name {segs[0]!r}")
+            t = self.self_ty if segs[0] == "Self" else segs[0]
+            if len(segs) == 2 and t in UBITS and segs[1] == "MAX": return self.ilit(2 ** UBITS[t] - 1, t)
+            if len(segs) == 2 and t in UBITS and segs[1] == "BITS": return Val(str(UBITS[t]), "bits")
+            fail(f"path {'::'.join(segs)}")
+        if k == "cast": return self.cast(self.expr(e[1], env), e[2])
+        if k == "unary" and e[1] in ("&", "*"): return self.expr(e[2], env, expect)
+        if k == "binary":
+            op = e[1]
+            a = self.expr(e[2], env, expect if op in "+-*/|" else None) if e[2][0] != "num" else None
+            b = self.expr(e[3], env, a.ty if a is not None and op not in ("<<", ">>") else None)
+            if a is None: a = self.expr(e[2], env, b.ty)
+            if op in ("<<", ">>"):
+                if a.ty not in UBITS or b.ty != "bits": fail(f"`{op}`: only `uN {op} Self::BITS`")
+                if int(b.code) >= UBITS[a.ty]: fail("shift by the full width")
+                return Val(f"({a.code} {'<<<' if op == '<<' else '>>>'} {b.code})" if a.ty == "u128" else f"({a.code} {'<<<' if op == '<<' else '>>>'} ({b.code} : {MONO_LEAN[a.ty]}))", a.ty)
+            if a.ty != b.ty: fail(f"`{op}` on {a.ty} and {b.ty}")
+            if op in "+-*/":
+                if a.ty in ("f32", "f64") or (a.ty in UBITS and a.ty != "u128" and op == "+"): return Val(f"({a.code} {op} {b.code})", a.ty)
+                fail(f"`{op}` on {a.ty}")
+            if op == "|" and a.ty in UBITS: return Val(f"({a.code} ||| {b.code})", a.ty)
+            if op in CMP_OPS and a.ty in ("f32", "f64"):
+                rel, flip = CMP_OPS[op]
+                return Val(f"({b.code} {rel} {a.code})" if flip else f"({a.code} {rel} {b.code})", "prop")
+            fail(f"binary {op} on {a.ty}")
+        if k == "call":
+            f, xs = e[1], e[2]
+            if f[0] != "path": fail("call of a computed value")
+            segs = f[1]
+            key = "::".join(segs)
+            if key in ("f32::from_bits", "f64::from_bits") and len(xs) == 1:
+                v = self.expr(xs[0], env, "u32" if segs[0] == "f32" else "u64")
+                if v.ty != ("u32" if segs[0] == "f32" else "u64"): fail(f"{key} of a {v.ty}")
+                return Val(f"({MONO_LEAN[segs[0]]}.ofBits {v.code})", segs[0])
+            if len(segs) == 2 and segs[1] == "from" and len(xs) == 1 and (segs[0] in UBITS or segs[0] == "f64"):      # lossless `From`
+                v = self.expr(xs[0], env)
+                ok = (v.ty in UBITS and segs[0] in UBITS and UBITS[v.ty] < UBITS[segs[0]]) or (v.ty == "f32" and segs[0] == "f64")
+                if not ok: fail(f"{key} of a {v.ty}")
+                return self.cast(v, segs[0])
+            if len(segs) == 2 and segs[1] == "max_intensity" and not xs:
+                t = self.self_ty if segs[0] == "Self" else segs[0]
+                if ("max", t) not in self.bodies: fail(f"{t}::max_intensity() is not a registered body")
+                return Val(self.bodies[("max", t)], t)
+            if key in ("clamp", "crate::clamp") and len(xs) == 3:
+                v = self.expr(xs[0], env)
+                if v.ty not in ("f32", "f64"): fail("clamp on a non-float")
+                lo, hi = self.expr(xs[1], env, v.ty), self.expr(xs[2], env, v.ty)
+                if lo.ty != v.ty or hi.ty != v.ty: fail("clamp: operand types")
+                return Val(f"(Stim.clamp{v.ty[1:]} {v.code} {lo.code} {hi.code})", v.ty)
+            if key == "Round::round" and len(xs) == 1:
+                v = self.expr(xs[0], env)
+                if v.ty not in ("f32", "f64"): fail("round on a non-float")
+                return Val(f"(Stim.round{v.ty[1:]} {v.code})", v.ty)
+            if len(segs) == 2 and segs[1] == "from_stimulus" and len(xs) == 1:       # `impl<T, U: IntoStimulus<T>> FromStimulus<U> for T`: `other.into_stimulus()`
+                v = self.expr(xs[0], env)
+                return self.into(v, segs[0])
+            fail(f"call of {key} is outside the translated subset")
+        if k == "mcall":
+            name, xs = e[2], e[3]
+            if name == "into_stimulus" and not xs:
+                if expect is None: fail("`.into_stimulus()` without a target type")
+                return self.into(self.expr(e[1], env), expect)
+            r = self.expr(e[1], env, expect)
+            if name in ("min", "max") and len(xs) == 1 and r.ty in ("f32", "f64"):
+                b = self.expr(xs[0], env, r.ty)
+                if b.ty != r.ty: fail(f".{name}: operand types")
+                return Val(f"(Stim.{name}{r.ty[1:]} {r.code} {b.code})", r.ty)
+            if name == "to_bits" and not xs and r.ty in ("f32", "f64"): return Val(f"({r.code}).toBits", "u32" if r.ty == "f32" else "u64")
+            if name == "saturating_sub" and len(xs) == 1 and r.ty in ("u32", "u64"):
+                b = self.expr(xs[0], env, r.ty)
+                if b.ty != r.ty: fail("saturating_sub: operand types")
+                return Val(f"(Stim.satSub{r.ty[1:]} {r.code} {b.code})", r.ty)
+            if name == "recip" and not xs and r.ty in ("f32", "f64"): return Val(f"({self.flit('1.0', r.ty).code} / {r.code})", r.ty)
+            fail(f"method .{name}() on a {r.ty} is outside the translated subset")
+        if k == "if":
+            c = self.expr(e[1], env)
+            if c.ty != "prop" or e[3] is None: fail("if: a float comparison and an else branch expected")
+            a, b = self.block(e[2], env, expect), self.block(e[3], env, expect)
+            if a.ty != b.ty: fail(f"if: branch types differ ({a.ty} / {b.ty})")
+            return Val(f"(if {c.code} then {a.code} else {b.code})", a.ty)
+        if k == "block": return self.block(e, env, expect)
+        fail(f"expression kind {k!r} is outside the translated subset (stimulus.rs)")
+
+    def into(self, v, to):
+        if v.ty == to: return v
+        if (v.ty, to) not in self.bodies: fail(f"IntoStimulus<{to}> for {v.ty} is not a registered body (register callees first)")
+        return Val(f"({self.bodies[(v.ty, to)]} {v.code})", to)
+
+    def block(self, b, env, expect=None):
+        env = dict(env); lines = []
+        for s in b[1]:
+            if s[0] != "let" or s[1][0] != "pid" or s[3] is None: fail("only `let x = e;` statements (stimulus.rs)")
+            v = self.expr(s[3], env)
+            if v.ty in ("prop", "bits"): fail("binding a comparison")
+            n = lname(s[1][1])
+            lines.append(f"let {n} : {MONO_LEAN[v.ty]} := {v.code};")
+            env[s[1][1]] = Val(n, v.ty)
+        if b[2] is None: fail("block without value")
+        v = self.expr(b[2], env, expect)
+        if not lines: return v
+        return Val("(" + "\n".join(lines + [v.code]) + ")", v.ty)
+
+def translate_mono(ctx, spec, read_src, registry):
+    """one `IntoStimulus<dst> for src` (or `Stimulus::max_intensity` for an integer type) -> Lean definition text"""
+    src_ty, dst_ty = spec["mono"]
+    src = read_src(spec["file"])
+    inv_text = None
+    if spec.get("expand"):
+        try:
+            text, inv_text = ctx.engine.expand_invocation(*spec["expand"])
+        except rust_macros.MacroError as e:
+            fail(f"macro expansion of {spec['expand'][1]}! in {spec['expand'][0]}: {e}")
+    else: text = src
+    params, ret, body = find_fn(text, spec["where"], spec["fn"])
+    ret = re.sub(r"\s+", "", ret)
+    if ret == "Self": ret = src_ty if spec["fn"] == "max_intensity" else ret
+    if ret != dst_ty: fail(f"return type {ret!r}, registered target {dst_ty}")
+    ps = [x.strip() for x in split_top(params) if x.strip()]
+    if ps not in ([], ["self"]): fail(f"parameters {ps}")
+    consts = {m.group(1): (m.group(2), m.group(3)) for m in re.finditer(r"\bconst\s+(\w+)\s*:\s*(u32|u64)\s*=\s*(0x[0-9a-fA-F_]+|\d[\d_]*)\s*;", src)}
+    lo = MonoLower(consts, registry, src_ty, dst_ty)
+    env = {"self": Val("self_", src_ty)} if ps else {}
+    v = lo.block(parse_block(body), env, dst_ty)
+    if v.ty != dst_ty: fail(f"body has type {v.ty}, signature says {dst_ty}")
+    code = v.code[1:-1] if v.code.startswith("(let ") else v.code
+    where = spec.get("label") or ""
+    doc = f"/-- `{spec['file']}`: `fn {spec['fn']}` of `{where}`" + \
+          (f", in the expansion of `{spec['expand'][1]}!({pretty_tokens(inv_text)[:170]})`" if inv_text is not None else "") + " -/"
+    binder = f" (self_ : {MONO_LEAN[src_ty]})" if ps else ""
+    return f"{doc}\ndef {spec['name']}{binder} : {MONO_LEAN[dst_ty]} :=\n{indent(reflow(code), 2)}\n"
+
+def stim_impl(dst, src): return (r"impl\s+IntoStimulus\s*<\s*" + dst + r"\s*>\s*for\s+" + src + r"\b", f"impl IntoStimulus<{dst}> for {src}")
+STIM_TYPES = ["f32", "f64", "u8", "u16", "u32", "u64", "u128"]
+def cap_ty(t): return t[0].upper() + t[1:]
+
+def bodies_stim(read_src):
+    """every `IntoStimulus<dst> for src` of stimulus.rs, with the macro invocation it comes from found in the current source"""
+    eng = rust_macros.Engine(read_src, tokenize, ["stimulus.rs"])
+    src = read_src("stimulus.rs")
+    out = []
+    # `impl_uint_components!(u8, ..)`: `max_intensity() = $ty::MAX`
+    for t in UBITS:
+        out.append(B(f"stimMax{cap_ty(t)}", "stimulus.rs", (r"impl\s+Stimulus\s+for\s+" + t + r"\b", f"impl Stimulus for {t}"), "max_intensity", None,
+                     expand=("stimulus.rs", "impl_uint_components", None, 0), mono=(t, t)))
+    macros = ["convert_float_to_uint", "convert_double_to_uint", "convert_uint_to_float", "convert_uint_to_uint", "convert_uint_to_larger_uint"]
+    found = {}
+    for mac in macros:
+        for inv in eng.invocations("stimulus.rs", mac):
+            first = inv[0][2]
+            text = eng.expand_invocation("stimulus.rs", mac, first)[0]
+            for m in re.finditer(r"impl IntoStimulus < (\w+) > for (\w+)", text):
+                if (m.group(2), m.group(1)) in found: fail(f"IntoStimulus<{m.group(1)}> for {m.group(2)} generated twice")
+                found[(m.group(2), m.group(1))] = (mac, first)
+    for m in re.finditer(r"impl\s+IntoStimulus\s*<\s*(\w+)\s*>\s*for\s+(\w+)\s*\{", src):      # the hand-written impls (u8 -> f32/f64, f32 <-> f64)
+        if (m.group(2), m.group(1)) in found: fail(f"IntoStimulus<{m.group(1)}> for {m.group(2)} implemented twice")
+        found[(m.group(2), m.group(1))] = None
+    want = {(a, b) for a in STIM_TYPES for b in STIM_TYPES if a != b}
+    if set(found) != want: fail(f"stimulus.rs: impls found for {sorted(set(found) ^ want)} differ from the 42 ordered pairs")
+    def model(a, b):
+        if a in ("f32", "f64"): return "Stim.f32ToF64" if b == "f64" else "Stim.f64ToF32" if b == "f32" else f"Stim.{a}ToUint"
+        if b in ("f32", "f64"): return f"Stim.uintTo{cap_ty(b)}"
+        return "Stim.uintToUint"
+    # callees first: direct widenings (`next`) before the chained ones
+    order = sorted(found, key=lambda p: (0 if found[p] and found[p][0] == "convert_uint_to_larger_uint" and UBITS[p[1]] == 2 * UBITS[p[0]] else 1,
+                                         STIM_TYPES.index(p[0]), STIM_TYPES.index(p[1])))
+    chained = [p for p in order if found[p] and found[p][0] == "convert_uint_to_larger_uint" and UBITS[p[1]] != 2 * UBITS[p[0]]]
+    order = [p for p in order if p not in chained] + sorted(chained, key=lambda p: (-UBITS[p[0]], UBITS[p[1]]))
+    for (a, b) in order:
+        out.append(B(f"stim{cap_ty(a)}To{cap_ty(b)}", "stimulus.rs", stim_impl(b, a), "into_stimulus", model(a, b),
+                     expand=("stimulus.rs",) + found[(a, b)] if found[(a, b)] else None, mono=(a, b)))
+    return out
+
+UNTRANSLATED_STIM = [
+    "`impl<T> IntoStimulus<T> for T` (the identity), `FromStimulus` (blanket: `other.into_stimulus()`, read as the call it forwards to),",
+    "  `into_format` on colours (component-wise map: C06 law-free theorem + correspondence run)",
+    "what the language defines (per-type primitives, read as definitions of PaletteModel/Stimulus.lean and compared with the hardware on every run):",
+    "  `f32/f64::min`, `max`, `clamp`, `round`, `recip`; the casts `f32 as f64` (Stim.f32ToF64), `f64 as f32` (Stim.f64ToF32), `uN as f64` for N >= 32",
+    "  (Stim.natToF64), `f64 as uN` (Stim.f64CastNat, saturating), `f32 as u8`, `u8/u16 as f32/f64`, `uA as uB` (core Lean's conversions);",
+    "  `to_bits` / `from_bits` / `saturating_sub` / `<<` / `|` / wrapping `+` on words (core Lean's `UIntN`; `u128` is `Nat`)",
+]
+
+FAMILIES["clamp"] = dict(file="BodiesClamp.lean", tie="Tie_Clamp.lean", imports=["PaletteModel.Clamp"], bodies=bodies_clamp,
+                         what="clamp / bounds (C03): macros/clamp.rs (`impl_clamp!`, `impl_clamp_hwb!`, `impl_is_within_bounds!`, `impl_is_within_bounds_hwb!`, `_clamp_value!`) expanded "
+                              "at every invocation for a three-component colour type, and the `min_*` / `max_*` accessors those invocations name",
+                         untranslated=UNTRANSLATED_CLAMP, colour_files=TYPES3_FILES, macro_files=MACRO_FILES, expr_macros=["_clamp_value"], pins=CLAMP_PINS,
+                         structs=[], enums=[])
+
+FAMILIES["ops"] = dict(file="BodiesOps.lean", tie="Tie_Ops.lean", imports=["PaletteModel.Ops"], bodies=bodies_ops,
+                       what="colour operators (C10): macros/mix.rs, macros/lighten_saturate.rs, macros/hue.rs, macros/arithmetics.rs, macros/color_theory.rs expanded at every invocation "
+                            "for a three-component colour type; the blanket impls of color_theory.rs and lib.rs (`Darken`, `Desaturate`); the accessors and angle helpers they use",
+                       untranslated=UNTRANSLATED_OPS, colour_files=TYPES3_FILES, macro_files=MACRO_FILES, expr_macros=[], pins=CLAMP_PINS, structs=[], enums=[])
+
+FAMILIES["hue"] = dict(file="BodiesHue.lean", tie="Tie_Hue.lean", imports=["PaletteModel.Hue"], bodies=BODIES_HUE,
+                       what="hues as angles (C11): angle.rs (`impl_angle_float!`, `impl_from_angle_u8!`) and hues.rs (`make_hues!`: constructors, accessors, cartesian forms, `From`, `PartialEq`, `Add`/`Sub` and their assigning forms)",
+                       untranslated=UNTRANSLATED_HUE, structs=[], enums=[])
+
+FAMILIES["stim"] = dict(file="BodiesStim.lean", tie="Tie_Stimulus.lean", imports=["PaletteModel.Stimulus"], bodies=bodies_stim, mono=True,
+                        what="component number formats (C06): every `IntoStimulus<target> for source` of stimulus.rs (42 ordered pairs of f32, f64, u8, u16, u32, u64, u128), read from the "
+                             "expansions of `convert_float_to_uint!`, `convert_double_to_uint!`, `convert_uint_to_float!`, `convert_uint_to_uint!`, `convert_uint_to_larger_uint!`, "
+                             "`impl_uint_components!` at their invocations, and the hand-written `u8 -> f32/f64`, `f32 <-> f64` impls",
+                        untranslated=UNTRANSLATED_STIM, macro_files=["stimulus.rs"], expr_macros=[], structs=[], enums=[])
+
 def ty_of(ctx, text, self_ty):
-    t = text.strip()
+    t = re.sub(r"\s*::\s*", "::", text.strip())      # expansions come back with single spaces between all tokens
     while t.startswith("&"): t = t[1:].strip()
     if t.startswith("mut "): t = t[4:].strip()
     if t in SCALAR_TYPES: return "T"
+    if t == "u8": return "N"
     if t.endswith("::Mask"): return "B"
     if re.fullmatch(r"\[\s*(\w+)\s*;\s*3\s*\]", t) and re.fullmatch(r"\[\s*(\w+)\s*;\s*3\s*\]", t).group(1) in SCALAR_TYPES: return ("V3", None)
     m = re.fullmatch(r"impl\s+FnMut\s*\((.*)\)\s*->\s*(.+)", t, re.S)
     if m: return ("fn", [ty_of(ctx, x, self_ty) for x in split_top(m.group(1))], ty_of(ctx, m.group(2), self_ty))
+    if t == "Self::Output" and self_ty is not None: t = "Self"      # `type Output = Self;` of the arithmetic impls
     if t == "Self":
         if self_ty is None: fail("`Self` outside an impl")
         return ty_of(ctx, self_ty, None)
@@ -2049,6 +2703,15 @@ def check_invocation(src, macro, args):
     want = re.sub(r"\s+", "", f"{macro}!({args}")
     if want not in re.sub(r"\s+", "", src).replace(macro + "!{", macro + "!("): fail(f"invocation `{macro}!({args} ..)` not found")
 
+def pretty_tokens(t):
+    """single-space separated tokens -> readable source text (doc comments only)"""
+    t = re.sub(r" ?:: ?", "::", t)
+    t = re.sub(r" ([,;)\]>.])", r"\1", t)
+    t = re.sub(r"([(\[<.&!]) ", r"\1", t)
+    t = re.sub(r"(\w) ([(<!])", r"\1\2", t)
+    t = re.sub(r"= >", "=>", t)
+    return t
+
 def translate_body(ctx, spec, read_src):
     """-> (Lean definition text, callee record)"""
     global SCALAR_TYPES, GENERIC_COLOURS, STRUCT_RENAME
@@ -2063,13 +2726,25 @@ def translate_body(ctx, spec, read_src):
 
 def translate_body_(ctx, spec, read_src):
     src = read_src(spec["file"])
-    params, ret, body = find_fn(src, spec["where"], spec["fn"])
+    inv_text = None
+    if spec.get("expand"):
+        # the body is read from the expansion of an actual macro invocation (tools/rust_macros.py): (file of the invocation, macro, first token)
+        if ctx.engine is None: fail("`expand` in a family without macro engine")
+        try:
+            text, inv_text = ctx.engine.expand_invocation(*spec["expand"])
+        except rust_macros.MacroError as e:
+            fail(f"macro expansion of {spec['expand'][1]}! in {spec['expand'][0]}: {e}")
+        params, ret, body = find_fn(text, spec["where"], spec["fn"], spec.get("nth", 0))
+    else:
+        params, ret, body = find_fn(src, spec["where"], spec["fn"], spec.get("nth", 0))
+    if spec.get("invocation_rx"):      # (file, regex): the registered instantiation must be an actual invocation
+        if not re.search(spec["invocation_rx"][1], read_src(spec["invocation_rx"][0])): fail(f"invocation /{spec['invocation_rx'][1]}/ not found in {spec['invocation_rx'][0]}")
     if spec.get("macro_args"):
         inv = spec.get("invocation")
         if inv: check_invocation(read_src(inv[0]), inv[1], inv[2])
         params, ret, body = (macro_expand(x, spec["macro_args"]) for x in (params, ret, body))
     self_ty = spec.get("self_ty")
-    if self_ty is None and spec["where"]:
+    if self_ty is None and spec["where"] and not spec.get("expand"):
         m = re.search(r"\bfor\s+(\w+)", re.search(spec["where"], src).group(0))
         if m: self_ty = m.group(1)
     subst = {}
@@ -2078,7 +2753,11 @@ def translate_body_(ctx, spec, read_src):
         if not m: fail(f"associated constant {k}: /{rx}/ not found in {f}")
         subst[k] = m.group(1)
     holes = [(parse_expr(k), Val(lname(n), "T")) for k, n in (spec.get("holes") or {}).items()]
-    lo = Lower(ctx, self_ty=self_ty, kmode=spec.get("k", "sci"), consts=module_consts(src), typeid=spec.get("typeid"),
+    consts = module_consts(src)
+    for f in spec.get("consts_from") or ():       # constants of another module, used qualified (`ok_utils::MAX_SRGB_SATURATION_INACCURACY`)
+        mod = re.sub(r"\.rs$", "", f.split("/")[-1])
+        for k, v in module_consts(read_src(f)).items(): consts[mod + "::" + k] = v
+    lo = Lower(ctx, self_ty=self_ty, kmode=spec.get("k", "sci"), consts=consts, typeid=spec.get("typeid"),
                wp="wp" if spec.get("wp") else None, subst=subst, prims=spec.get("prims"), mask=spec.get("mask", "bool"), holes=holes,
                scalars=spec.get("scalars", ()))
     env, binders, ptys = {}, [], []
@@ -2088,7 +2767,7 @@ def translate_body_(ctx, spec, read_src):
     for p in split_top(params):
         p = p.strip()
         if not p: continue
-        if p in ("self", "&self", "mut self"):
+        if re.sub(r"\s+", " ", p) in ("self", "&self", "mut self", "&mut self", "& self", "& mut self"):
             if "self" in (spec.get("skip_params") or ()): continue
             ty = ty_of(ctx, "Self", self_ty); n = "self"
         else:
@@ -2100,23 +2779,33 @@ def translate_body_(ctx, spec, read_src):
         env[n] = Val(lname(n) if n != "self" else "self_", ty)
         binders.append(f"({env[n].code} : {lean_ty(ty)})")
         ptys.append(ty)
-    rty = spec.get("rty") or ty_of(ctx, ret, self_ty)
-    v = lo.stmts(*(lambda b: (b[1], 0, b[2]))(parse_block(body)), env)
+    blk = parse_block(body)
+    if spec.get("inout"):
+        # a `&mut self` method (or `mut self` one ending in `self`): the value is the final state of the receiver
+        if blk[2] is not None or ret.strip(): fail(f"inout body with a value of its own")
+        if spec["inout"] not in env: fail(f"inout parameter {spec['inout']} not found")
+        blk = ("block", blk[1], ("path", [spec["inout"]], []))
+        rty = env[spec["inout"]].ty
+    else:
+        rty = spec.get("rty") or ty_of(ctx, ret, self_ty)
+    v = lo.stmts(blk[1], 0, blk[2], env)
     if v.ty == "P" and rty == "B": v = Val(lo.as_bool(v), "B")
     ok = v.ty == rty or (v.ty not in ("T", "B", "P", "C") and rty not in ("T", "B", "P", "C") and v.ty[0] == "V3" and rty[0] == "V3")
     if not ok: fail(f"body has type {v.ty!r}, signature says {rty!r}")
     unused = [k for k in (spec.get("typeid") or {}) if k not in lo.typeids_seen]
     if unused: fail(f"registered TypeId comparison(s) {unused} do not occur in the body any more")
-    inst = "[Scalar α]" + (" [Angle α]" if lo.uses_angle else "") + (" {β : Type} [Scalar β] [ViaF64 α β]" if lo.uses_viaf64 else "")
+    inst = "[Scalar α]" + (" " + spec["inst"] if spec.get("inst") else "") + (" [Angle α]" if lo.uses_angle else "") + (" {β : Type} [Scalar β] [ViaF64 α β]" if lo.uses_viaf64 else "")
     where = spec.get("label") or spec["where"] or ""
     doc = f"/-- `{spec['file']}`: `fn {spec['fn']}`" + (f" of `{where}`" if where else "") + \
           (f", branch {spec['typeid']}" if spec.get("typeid") else "") + (f", with {subst}" if subst else "") + \
           (f", instantiated at `{spec['invocation'][1]}!({spec['invocation'][2]})` ({spec['invocation'][0]})" if spec.get("invocation") else "") + \
-          (f", `Self` = `{self_ty}`" if spec.get("self_ty") and spec["where"] and "trait" in (where or "") else "") + \
+          (f", in the expansion of `{spec['expand'][1]}!({pretty_tokens(inv_text)[:170]})` ({spec['expand'][0]})" if inv_text is not None else "") + \
+          (f" (#{spec['nth']})" if spec.get("nth") else "") + \
+          (f", `Self` = `{self_ty}`" if spec.get("self_ty") and spec["where"] and ("trait" in (where or "") or (where or "").endswith(" for T")) else "") + \
           ("".join(f", `{k}` as the parameter `{n}`" for k, n in (spec.get("holes") or {}).items())) + " -/"
     text = f"{doc}\ndef {spec['name']} {{α : Type}} {inst} {' '.join(binders)} : {lean_ty(rty)} :=\n{indent(reflow(v.code), 2)}\n"
     rec = dict(lean="Gen.Body." + spec["name"], params=ptys, ret=rty, angle=lo.uses_angle, viaf64=lo.uses_viaf64,
-               extra=["wp"] if spec.get("wp") else [])
+               extra=["wp"] if spec.get("wp") else [], mutates=bool(spec.get("inout")))
     return text, rec
 
 def make_ctx(read_src):
@@ -2132,9 +2821,14 @@ def translate_all(ctx, bodies, read_src, tie_text, tie_file="Tie_Bodies.lean"):
     """translate `bodies` in order (callees first), registering each under its Rust spellings; every body with a model function must
     have its `tie_<name>` theorem in `tie_text` stating `Gen.Body.<name>` against that model function"""
     defs = []
+    registry = {}
     for spec in bodies:
         try:
-            text, rec = translate_body(ctx, spec, read_src)
+            if spec.get("mono"):
+                text, rec = translate_mono(ctx, spec, read_src, registry), None
+                registry[("max", spec["mono"][0]) if spec["fn"] == "max_intensity" else spec["mono"]] = "Gen.Body." + spec["name"]
+            else:
+                text, rec = translate_body(ctx, spec, read_src)
         except Untranslatable as e:
             raise Untranslatable(f"body {spec['name']} ({spec['file']}: fn {spec['fn']}): {e}")
         defs.append(text)
@@ -2171,6 +2865,17 @@ def generate_family(read_src, tie_text, fam):
     for k, d in F.get("intrinsics", {}).items():
         if isinstance(k, tuple): ctx.methods[k] = d
         else: ctx.fns[k] = d
+    global EXPR_MACRO_HOOK
+    EXPR_MACRO_HOOK = None
+    if F.get("macro_files"):
+        ctx.engine = rust_macros.Engine(read_src, tokenize, F["macro_files"])
+        def hook(name, toks, eng=ctx.engine, allowed=tuple(F.get("expr_macros", ()))):
+            if name not in allowed: return None
+            try:
+                return eng.expand_expr_macro(name, toks)
+            except rust_macros.MacroError as e:
+                fail(f"{name}!: {e}")
+        EXPR_MACRO_HOOK = hook
     try:
         verify_decls(read_src, F.get("structs", []), F.get("enums", []))
     except Untranslatable as e:
@@ -2182,7 +2887,12 @@ def generate_family(read_src, tie_text, fam):
         if got != digest:
             raise Untranslatable(f"family {fam}: `{fn}` ({file}) is read as {reading}, registered for the text with digest {digest}; the text now has digest {got} "
                                  f"(re-read the function, adapt the reading in Lower.zip_loop / BodyPrimExt.lean if needed, then update the digest)")
-    defs = translate_all(ctx, F["bodies"], read_src, tie_text, F["tie"])
+    bodies = F["bodies"](read_src) if callable(F["bodies"]) else F["bodies"]      # a family may derive its registrations from the invocations it finds
+    try:
+        defs = translate_all(ctx, bodies, read_src, tie_text, F["tie"])
+    finally:
+        EXPR_MACRO_HOOK = None
+    F = dict(F, bodies=bodies)
     tied = [s for s in F["bodies"] if s["model"]]
     head = [f"/- GENERATED by tools/extract.py (tools/rust2lean.py, family `{fam}`) from the function bodies of palette/src -- do not edit",
             "",
@@ -2197,6 +2907,7 @@ def generate_family(read_src, tie_text, fam):
             "  NOT translated in this family (still tied to the source by the correspondence run only):"] + \
            ["    " + u for u in F["untranslated"]] + ["-/",
             "import PaletteModel.BodyPrim", "import PaletteModel.BodyPrimExt"] + [f"import {m}" for m in F["imports"]] + [
+
             "", "set_option linter.unusedVariables false   -- loop variables the Rust body does not read (`for (src, dst) in ..`) stay named", "",
             "namespace Gen.Body", "",
             f"/-- names of the translated bodies of family `{fam}` that have a `tie_` theorem, with the model function they are proved equal to -/",
@@ -2230,7 +2941,6 @@ def generate(read_src, tie_text):
     return "\n".join(head) + "\n" + "\n".join(defs) + "\nend Gen.Body\n"
 
 if __name__ == "__main__":
-    import os, sys
     repo = os.environ.get("PALETTE_REPO", "/repo")
     def read_src(rel): return strip_comments(open(os.path.join(repo, "palette", "src", rel)).read())
     root = os.path.dirname(os.path.dirname(os.path.abspath(__file__)))
@@ -2240,8 +2950,9 @@ if __name__ == "__main__":
         if fams:
             F = FAMILIES[fams[0]]
             tie = os.path.join(root, "lean", "PaletteProofs", F["tie"])
+            bs = F["bodies"](read_src) if callable(F["bodies"]) else F["bodies"]
             sys.stdout.write(generate_family(read_src, open(tie).read() if os.path.exists(tie) and "--no-tie" not in sys.argv else
-                                             "".join(f"theorem tie_{s['name']} : Gen.Body.{s['name']} = {s['model']} := " for s in F["bodies"]), fams[0]))
+                                             "".join(f"theorem tie_{s['name']} : Gen.Body.{s['name']} = {s['model']} := " for s in bs), fams[0]))
             sys.exit(0)
         sys.stdout.write(generate(read_src, open(tie).read() if os.path.exists(tie) and "--no-tie" not in sys.argv else
                                   "".join(f"theorem tie_{s['name']} : Gen.Body.{s['name']} = {s['model']} := " for s in BODIES)))
